@@ -9,6 +9,7 @@ tied by the correspondence check on stable vocabularies (DESIGN.md section 3, br
 -/
 import RosedVerif.Spec.WrapLemmas
 import RosedVerif.Model.WrapRefine
+import RosedVerif.Model.WrapFits
 namespace RosedVerif.Props
 open RosedVerif RosedVerif.Spec
 
@@ -58,6 +59,18 @@ theorem C06_refines [DecidableEq α] (cx : Ctx α) (htriv : ∀ s, cx.ends s = L
     RosedVerif.wrapLines cx text w sep =
       .ok (Spec.wrapLines ⟨cx.isSpace, cx.sp, cx.hy⟩ (max w 2).toNat (replaceAll' cx text sep)) :=
   wrapLines_triv cx htriv hsp text w sep
+
+/-- **(1) for ALL texts**: on arbitrary code points — lone marks, Prepend characters, odd flag halves,
+any whitespace — with the real segmentation, no line produced by the model of manip.Wrap exceeds the
+(clamped) width.  Uses sub-additivity of the cluster count, `len (a ++ b) ≤ len a + len b`, itself
+proved from the finite-state form of the rule chain. -/
+theorem C06_width_all (text : List Int) (w : Int) (sep : List Int) (r : List (List Int))
+    (h : RosedVerif.wrapLines cxA text w sep = .ok r) : ∀ l ∈ r, (gLen cxA l : Int) ≤ max w 2 :=
+  wrapLines_width_all text w sep r h
+
+theorem C06_subadditive (a b : List Int) :
+    (splitRunes (a ++ b)).length ≤ (splitRunes a).length + (splitRunes b).length :=
+  splitRunes_length_append_le a b
 
 /-! non-vacuity -/
 example : Spec.wrapLines ⟨(· == 0), 0, 99⟩ 5 [1, 2, 3, 0, 4, 5, 6, 7, 8, 9, 0, 1] =
